@@ -246,6 +246,7 @@ def run(db, cx):
 
     # ------------------------------------------- 6. reported length = integrated length
     driver_length_coherent(db, cx)
+    substep_bounded(db, cx)
 
 
 DRS = "f:" + C + "DriverResult::state"
@@ -332,6 +333,76 @@ def _stale_at(f, var, sources, dst):
                 seen.add(key)
                 work.append((sx, 0, dirty, frozenset(fl.items()), nforced))
     return False
+
+
+def substep_bounded(db, cx, rule="C08.7-substep-bounded"):
+    """C08.7 (seeded change c05e): in FieldDriver::accurate_advance every sub-step length handed to
+    integrate_step is bounded by the length that remains to be integrated: it is the requested
+    `step` itself, an alternative guarded by `< step`, or min(., L - curve_length) with L a copy
+    of `step` and curve_length the accumulated length.  clamp(v, lo, remaining) is not such a
+    bound: for lo > remaining it returns lo and the state is integrated past the chord."""
+    import re
+    fs = [f for f in db.get(C + "FieldDriver::accurate_advance")]
+    cx.require(fs, "anchor FieldDriver::accurate_advance not found")
+    for f in fs:
+        tag = f.inst.split("<", 1)[1][:40] if "<" in f.inst else ""
+        step_par = f.r["params"][0]["n"]
+        calls = [(b, i, e) for (b, i, e) in f.events("call") if e["callee"] == C + "FieldDriver::integrate_step"]
+        cx.require(calls, "accurate_advance no longer calls integrate_step")
+        # copies of the requested length, and the accumulated length
+        copies = {step_par}
+        for (_b, _i, e) in f.events("def"):
+            if e.get("kind") == "decl" and (e.get("rhs") or "").strip() == step_par:
+                copies.add(e["var"])
+        acc = set(e["var"] for (_b, _i, e) in f.events("def") if e.get("op") == "+="
+                  and any(r.endswith("DriverResult::step") for r in e.get("refs", [])))
+        for (b, i, e) in calls:
+            arg = e["args"][0]
+            lr = sorted(local_refs(arg.get("refs", [])))
+            if len(lr) != 1 or arg.get("t") != lr[0]:
+                cx.ob(rule, "integrate_step length is a plain local [%s]" % tag, False,
+                      arg.get("t"), short(e["loc"]))
+                continue
+            h = lr[0]
+            rds = [d for (_b2, _i2, d) in f.reaching_defs(h, (b, i)) if d["e"] == "def"]
+            for d in rds:
+                rhs = re.sub(r"\s+", "", (d.get("rhs") or "").replace("celeritas::", "").replace("std::", "").replace("this->", ""))
+                # a local that names the remaining length: substitute its (single) definition
+                for v_ in sorted(local_refs(d.get("refs", []))):
+                    if v_ in copies or v_ in acc or v_ == h:
+                        continue
+                    vd = [x for (_b3, _i3, x) in f.events("def") if x.get("var") == v_]
+                    if len(vd) == 1 and re.match(r"^[A-Za-z_][A-Za-z_0-9]*\s*-\s*[A-Za-z_][A-Za-z_0-9]*$",
+                                                 (vd[0].get("rhs") or "").strip()):
+                        rhs = re.sub(r"\b%s\b" % re.escape(v_), re.sub(r"\s+", "", vd[0]["rhs"]), rhs)
+                ok = False
+                why = ""
+                if rhs in copies:
+                    ok = True
+                else:
+                    m = re.match(r"^min\((.*),([A-Za-z_][A-Za-z_0-9]*)-([A-Za-z_][A-Za-z_0-9]*)\)$", rhs)
+                    m2 = re.match(r"^min\(([A-Za-z_][A-Za-z_0-9]*)-([A-Za-z_][A-Za-z_0-9]*),(.*)\)$", rhs)
+                    if m and m.group(2) in copies and m.group(3) in acc:
+                        ok = True
+                    elif m2 and m2.group(1) in copies and m2.group(2) in acc:
+                        ok = True
+                    else:
+                        mc = re.match(r"^\(*(.*)\)*\?([A-Za-z_][A-Za-z_0-9]*):([A-Za-z_][A-Za-z_0-9]*)$", rhs)
+                        if mc:
+                            cond, a_, b_ = mc.group(1), mc.group(2), mc.group(3)
+                            okb = b_ in copies
+                            oka = a_ in copies or any(("%s<%s" % (a_, c_)) in cond or ("%s<=%s" % (a_, c_)) in cond
+                                                      for c_ in copies)
+                            ok = oka and okb and "||" not in cond
+                        if not ok:
+                            why = "not `step`, not min(., %s - %s)" % ("|".join(sorted(copies)), "|".join(sorted(acc)) or "?")
+                cx.ob(rule,
+                      "sub-step `%s = %s` @%s is bounded by the remaining length [%s]" % (
+                          h, (d.get("rhs") or "")[:70], short(d["loc"]).split(":", 1)[1], tag), ok, why,
+                      short(d["loc"]),
+                      why="the driver reports min(curve_length, step) as the length of the state it "
+                          "returns; a sub-step longer than what remains integrates the state past the "
+                          "requested chord, so the track moves further than its reported step")
 
 
 def driver_length_coherent(db, cx):
